@@ -123,6 +123,17 @@ def check_c09(out, tier):
         T3 = relabel(T, rnd)
         rnd.shuffle(T3)
         items.append({"id": c["id"] + "r", "rel": "same", "how": "relabel", "a": c, "b": with_graph(c, T3)})
+    # classes that are described in the data (typed with a meta-class, linked from / to their instances) under inverse paths:
+    # the document grouped by subject - type triple first, type triple last - against a shuffled one
+    for i in range(40 * k):
+        T = gen.general_graph(rnd, max_nodes=5, bnodes=rnd.random() < .3, hierarchy=1.0)
+        c = gen.case("c09h%d" % i, T, **gen.switches(rnd, inverse=True))
+        def grouped(type_first):
+            return sorted(T, key=lambda t: (str(t[0]), (t[1] == M.RDF_TYPE) != type_first, str(t)))
+        T2 = list(T)
+        rnd.shuffle(T2)
+        items.append({"id": c["id"] + "f", "rel": "same", "how": "perm", "a": with_graph(c, grouped(True)), "b": with_graph(c, T2)})
+        items.append({"id": c["id"] + "l", "rel": "same", "how": "perm", "a": with_graph(c, grouped(False)), "b": with_graph(c, grouped(True))})
     # exhaustive permutations of small documents
     small = [c for c in base_cases(rnd, 12 * k, "c09x", schema_share=0)]
     for c in small:
